@@ -7,7 +7,7 @@ VARIABLE hist
 GenInit == Init /\ hist = <<>>
 (* the extended alphabet is explored by random walks (-simulate); fewer cut positions there so   *)
 (* that the walks are not dominated by the variants of TO2                                      *)
-ExtCuts == {NoCut, [kind |-> "resplost", t |-> 70], [kind |-> "reqlost", t |-> 64], [kind |-> "err255", t |-> 66], StoreFail(70)}
+ExtCuts == {NoCut, [kind |-> "resplost", t |-> 70], [kind |-> "reqlost", t |-> 64], [kind |-> "err255", t |-> 66], StoreFail(70), DelFail}
 NextExt ==
     /\ steps < MaxSteps
     /\ \/ \E c \in {NoCut, [kind |-> "resplost", t |-> 12], StoreFail(12)} : DI(c)
